@@ -5,6 +5,7 @@
 EXTENDS MainLoop, Sequences, Json, IOUtils, TLC
 T == ndJsonDeserialize(IOEnv.TRACE)
 VARIABLE ti
+CONSTANT Exact     \* TRUE: the sleep is exactly the specification's SleepArg; FALSE: only the property (NoOversleep) is demanded
 TraceInit == Init /\ ti = 1
 TraceNext ==
   /\ ti <= Len(T) /\ ti' = ti + 1
@@ -13,7 +14,7 @@ TraceNext ==
      /\ now' = 0 /\ iters' = 0                     \* each event is judged on its own, relative to its t0
      /\ ret' = ev.d /\ t1' = ev.w
      /\ slept' = (LET a == SleepArg(ev.d - ev.w) IN IF a > 0 THEN a ELSE 0)
-     /\ ev.slept = slept' /\ ev.calls = (IF slept' > 0 THEN 1 ELSE 0)      \* what usleep was asked for, and whether it was called at all
+     /\ (Exact => (ev.slept = slept' /\ ev.calls = (IF slept' > 0 THEN 1 ELSE 0)))      \* what the loop asked to sleep, and in how many calls
      /\ ev.w + ev.slept <= (IF ev.d > ev.w THEN ev.d ELSE ev.w)            \* NoOversleep on the observed numbers
 TraceSpec == TraceInit /\ [][TraceNext]_<<vars, ti>>
 TraceAccepted ==
